@@ -11,6 +11,8 @@ package main
 //   C09-blockweight-without-count  BuildTxListExt(true) omits the count  -> block/weight-mismatch
 //   C09-segwit-nowitsize-marker    NoWitSize counts marker+flag          -> size/nowitsize-mismatch, size/weight-mismatch, size/vsize-mismatch
 //   C09-vlen-fe-reads-16bit        VLen masks the 5-byte form to 24 bits -> cs/over-max-size-accepted, trunc/accepted
+// Seeded changes (/verif/seeded): C09-a -> flag/unknown-optional-data-accepted, C09-c -> id/wtxid-mismatch,
+//   C09-d (TxSize witness loop without the negative-length test) -> hang/TxSize-does-not-return, size/txsize-beyond-buffer
 
 import (
 	"fmt"
@@ -250,7 +252,7 @@ func buildBases(thorough bool) []baseSpec {
 
 // ---- transaction mutation families ----
 
-var txFams = []string{"id", "trunc", "subst", "nonmin", "huge", "marker", "emptywit", "trail"}
+var txFams = []string{"id", "trunc", "subst", "nonmin", "huge", "wrap", "wrap2", "marker", "emptywit", "trail"}
 
 func txFamCount(b *base, fam string, alpha []byte) int {
 	switch fam {
@@ -264,6 +266,14 @@ func txFamCount(b *base, fam string, alpha []byte) int {
 		return len(b.cs) * 3
 	case "huge":
 		return len(b.cs) * len(hugeCounts)
+	case "wrap":
+		n := 0
+		for _, c := range b.cs {
+			n += len(wrapValues(c.Off, len(b.enc)-c.Off-c.Len))
+		}
+		return n
+	case "wrap2":
+		return len(csPairs(b)) * len(wrapParents) * wrapChildN
 	case "marker":
 		return len(markers)
 	case "emptywit":
@@ -309,6 +319,27 @@ func txGen(b *base, fam string, alpha []byte, i int) []byte {
 	case "huge":
 		s := b.cs[i/len(hugeCounts)]
 		return replaceSpan(b.enc, s, reftx.PutCS(nil, hugeCounts[i%len(hugeCounts)]))
+	case "wrap":
+		for _, c := range b.cs {
+			v := wrapValues(c.Off, len(b.enc)-c.Off-c.Len)
+			if i < len(v) {
+				return replaceSpan(b.enc, c, reftx.PutCS(nil, v[i]))
+			}
+			i -= len(v)
+		}
+		return nil
+	case "wrap2":
+		pr := csPairs(b)[i/(len(wrapParents)*wrapChildN)]
+		i %= len(wrapParents) * wrapChildN
+		par, ch := b.cs[pr[0]], b.cs[pr[1]]
+		pv := wrapParents[i/wrapChildN]
+		if pv == 0 { // the largest count a "not more elements than bytes left" test lets through
+			pv = uint64(len(b.enc) - par.Off - par.Len)
+		}
+		pe := reftx.PutCS(nil, pv)
+		cv := wrapChildValues(ch.Off + len(pe) - par.Len)[i%wrapChildN]
+		r := replaceSpan(b.enc, ch, reftx.PutCS(nil, cv)) // the later field first: offsets before it stay
+		return replaceSpan(r, par, pe)
 	case "marker":
 		m := markers[i]
 		if b.segwit {
@@ -339,6 +370,112 @@ func txGen(b *base, fam string, alpha []byte, i int) []byte {
 		return append(r, 1, 0, 0, 0)
 	}
 	return nil
+}
+
+// txTail gives plausible bytes that may follow a case in a larger buffer (the case is
+// then presented as backing[:len] with these bytes within the capacity): the rest of the
+// valid encoding for a truncation, the next transaction's first bytes otherwise.
+func txTail(b *base, fam string, i int) []byte {
+	if fam == "trunc" {
+		return b.enc[i:]
+	}
+	if len(b.enc) > 64 {
+		return b.enc[:64]
+	}
+	return b.enc
+}
+
+// wrapValues: count / length values chosen so that position arithmetic on them wraps
+// around in a signed 64-bit int. off = offset of the field, rem = bytes after the field.
+// For a prefix of n bytes read at off, off+n+value lands on off, off-1, 0, 1 (value =
+// -n, -(n+1), -(off+n), -(off+n)+1 as two's complement) or on len(b) and its neighbours
+// (value = rem, rem +-1, and the same minus the 4 lock-time bytes).
+func wrapValues(off, rem int) []uint64 {
+	var v []uint64
+	seen := map[uint64]bool{}
+	add := func(x uint64) {
+		if !seen[x] {
+			seen[x] = true
+			v = append(v, x)
+		}
+	}
+	for k := 1; k <= 11; k++ {
+		add(-uint64(k))
+	}
+	for _, n := range []int{1, 3, 5, 9} {
+		for d := -1; d <= 1; d++ {
+			add(uint64(-(off + n) + d))
+		}
+	}
+	for _, x := range []uint64{1<<63 - 1, 1 << 63, 1<<63 + 1, 1<<32 - 1, 1 << 32, 1<<31 - 1, 1 << 31} {
+		add(x)
+	}
+	for _, d := range []int{-5, -4, -3, -1, 0, 1} {
+		if rem+d >= 0 {
+			add(uint64(rem + d))
+		}
+	}
+	return v
+}
+
+// wrap2: a count field together with the length field of its first element.
+// (largest first: a loop that never ends is met before one that is merely long)
+// No counts near 2^32: a loop of that many cheap iterations lasts about as long as the
+// watchdog, the verdict would depend on the machine; 2^62+1 iterations end nowhere.
+var wrapParents = []uint64{1<<63 - 1, 1<<64 - 1, 1<<62 + 1, 0 /* = bytes left */}
+
+const wrapChildN = 24
+
+func wrapChildValues(off int) []uint64 {
+	var v []uint64
+	for k := 1; k <= 10; k++ {
+		v = append(v, -uint64(k))
+	}
+	for _, n := range []int{1, 3, 5, 9} {
+		for d := 0; d <= 2; d++ {
+			v = append(v, uint64(-(off+n)+d))
+		}
+	}
+	v = append(v, 1<<63-1, 1<<63)
+	if len(v) != wrapChildN {
+		panic("wrapChildN")
+	}
+	return v
+}
+
+// csPairs: (index of a count field, index of the length field of its first element).
+func csPairs(b *base) [][2]int {
+	child := map[string]string{"cs:nin": "cs:scriptsig", "cs:nout": "cs:pkscript", "cs:nwit": "cs:witem"}
+	var l [][2]int
+	for i := 0; i+1 < len(b.cs); i++ {
+		if c, ok := child[b.cs[i].Kind]; ok && b.cs[i+1].Kind == c {
+			l = append(l, [2]int{i, i + 1})
+		}
+	}
+	return l
+}
+
+// ---- direct CompactSize family: btc.VLen / btc.VULe on every truncation of every form
+// of boundary values ----
+
+var vlenValues = []uint64{0, 1, 0xfc, 0xfd, 0xfe, 0xff, 0x100, 0xffff, 0x10000, 0x10001, 0xffffffff, 0x100000000, 0x100000001,
+	1<<63 - 1, 1 << 63, 1<<64 - 9, 1<<64 - 1}
+
+func vlenCount() int { return len(vlenValues) * 4 * 10 }
+
+// case i: value, form width (1,3,5,9: all forms incl. non-minimal ones), cut to 0..9 bytes
+func vlenGen(i int) []byte {
+	v := vlenValues[i/40]
+	w := []int{1, 3, 5, 9}[(i/10)%4]
+	cut := i % 10
+	f, ok := reftx.PutCSForm(v, w)
+	if !ok || cut > len(f) {
+		return nil
+	}
+	if cut == len(f) && cut < 9 {
+		return append(append([]byte{}, f...), 0x7f) // complete, followed by another byte
+	}
+	return append([]byte{}, f[:cut]...)
 }
 
 // ---- family (ii): all short strings over alpha6 after a 4-byte version ----
@@ -463,6 +600,19 @@ func buildBlocks(thorough bool) []bbase {
 	return l
 }
 
+// blockTail: bytes that may follow a block case inside a larger buffer.
+func blockTail(b *bbase, fam string, i int) []byte {
+	i >>= 1
+	if fam == "trunc" {
+		return b.enc[i:]
+	}
+	t := b.enc[80:]
+	if len(t) > 96 {
+		t = t[:96]
+	}
+	return t
+}
+
 var blockFams = []string{"id", "trunc", "count", "trail", "subst"}
 
 func blockCounts(b *bbase) [][]byte {
@@ -478,6 +628,9 @@ func blockCounts(b *bbase) [][]byte {
 		l = append(l, reftx.PutCS(nil, h))
 	}
 	l = append(l, []byte{0xfc}, []byte{0xfd, 0xfd, 0x00})
+	for _, v := range wrapValues(80, len(b.enc)-80-b.csLen) {
+		l = append(l, reftx.PutCS(nil, v))
+	}
 	return l
 }
 
